@@ -1,14 +1,15 @@
 /-
 T1 tie (DESIGN.md 1.3) of `circuit.BitFromLabel` (circuit/helpers.go) to
 `WireL.bitFrom` (Model/Garble.lean; used by C01 and C16): the definition of
-MpcVerif/Gen/Leaf.lean, regenerated from the current Go source by `gofacts
+MpcVerif/Gen/LeafC16.lean, regenerated from the current Go source by `gofacts
 translate` on every run of checks/t1.py, returns `some b` exactly when the
 model does and `none` (Go: a non-nil error) otherwise.  Core Lean only.
 -/
-import MpcVerif.Proofs.GenTie
+import MpcVerif.Gen.LeafC16
+import MpcVerif.Proofs.GenTieLib
 
 namespace Mpc.GenTie
-open Mpc Mpc.Gen
+open Mpc Mpc.Gen Mpc.Gen.C16
 
 theorem joinL_inj {a b : Gen.Label} : joinL a = joinL b ↔ a = b := by
   rw [join_inj]
@@ -18,18 +19,22 @@ theorem joinL_inj {a b : Gen.Label} : joinL a = joinL b ↔ a = b := by
 theorem label_beq (a b : Gen.Label) : (a == b) = (joinL a == joinL b) := by
   rw [Bool.eq_iff_iff]; simp only [beq_iff_eq, joinL_inj]
 
+/-- The group's own copy of `ot.Label.Equal` (callee of `BitFromLabel`). -/
+theorem tie_Equal16 (l o : Gen.Label) : Label.Equal l o = (joinL l == joinL o) := by
+  rw [Bool.eq_iff_iff]; simp [Label.Equal, join_inj]
+
 theorem tie_BitFromLabel (w : Gen.Wire) (l : Gen.Label) :
-    Gen.BitFromLabel w l = WireL.bitFrom ⟨joinL w.1, joinL w.2⟩ (joinL l) := by
+    Gen.C16.BitFromLabel w l = WireL.bitFrom ⟨joinL w.1, joinL w.2⟩ (joinL l) := by
   have h0' : (joinL w.1 = joinL l) = (joinL l = joinL w.1) := propext eq_comm
   have h1' : (joinL w.2 = joinL l) = (joinL l = joinL w.2) := propext eq_comm
   by_cases h0 : joinL l = joinL w.1 <;> by_cases h1 : joinL l = joinL w.2
   all_goals
     first | have h0 := eq_true h0 | have h0 := eq_false h0
     first | have h1 := eq_true h1 | have h1 := eq_false h1
-    simp only [Gen.BitFromLabel, WireL.bitFrom, tie_Equal, label_beq, beq_iff_eq, h0', h1', h0, h1,
+    simp only [Gen.C16.BitFromLabel, WireL.bitFrom, tie_Equal16, label_beq, beq_iff_eq, h0', h1', h0, h1,
       if_true, if_false, decide_true, decide_false, Bool.false_eq_true]
 
-example : Gen.BitFromLabel ((1#64, 2#64), (3#64, 4#64)) (3#64, 4#64) = some true ∧
-    Gen.BitFromLabel ((1#64, 2#64), (3#64, 4#64)) (3#64, 5#64) = none := by decide
+example : Gen.C16.BitFromLabel ((1#64, 2#64), (3#64, 4#64)) (3#64, 4#64) = some true ∧
+    Gen.C16.BitFromLabel ((1#64, 2#64), (3#64, 4#64)) (3#64, 5#64) = none := by decide
 
 end Mpc.GenTie
